@@ -2,7 +2,7 @@ import CV.Model.Quant
 /-!
 # `quantize.rs` contains no reachable unsafe precondition — for ARBITRARY distributions
 
-After D25 (symbol-table iterator) and D26 (`quantile_function`) every conversion to `NonZero` in
+After D25 (symbol-table iterator) and D27 (`quantile_function`) every conversion to `NonZero` in
 `quantize.rs` is checked.  Accordingly the model of the leaky quantizer has no `Fault.ub` site
 left, and for *arbitrary* external functions `gl`, `gr` (no monotonicity, no bound — a
 `Distribution` is a safe trait and may return anything) the encoder, the decoder (any hint, any
